@@ -99,6 +99,10 @@ impl RegexMatcher {
         // As in GNU regex, \` and \' are the beginning and the end of the text in
         // every syntax (Oniguruma only enables them for emacs).
         syntax.enable_operators(SyntaxOperator::SYNTAX_OPERATOR_ESC_GNU_BUF_ANCHOR);
+        if matches!(regex_type, RegexType::PosixBasic) {
+            // GNU's posix-basic (ed, sed) has \| for alternation; Oniguruma's does not.
+            syntax.enable_operators(SyntaxOperator::SYNTAX_OPERATOR_ESC_VBAR_ALT);
+        }
 
         let options = if ignore_case {
             RegexOptions::REGEX_OPTION_IGNORECASE
